@@ -139,11 +139,11 @@ func (c *cache) compact(requiredSpace int) (int, error) {
 		)
 		for id, session := range c.sessions {
 			session.RLock()
-			before := session.lastAccess.Before(oldestAccessTime)
+			lastAccess := session.lastAccess
 			session.RUnlock()
-			if oldestSessionID == "" || before {
+			if oldestSessionID == "" || lastAccess.Before(oldestAccessTime) {
 				oldestSessionID = id
-				oldestAccessTime = session.lastAccess
+				oldestAccessTime = lastAccess
 			}
 		}
 		if err := Persistence.SaveSession(oldestSessionID, c.sessions[oldestSessionID]); err != nil {
